@@ -359,7 +359,13 @@ def make_inst(ch, params):
         if not interesting:
             return []
         return [(f1.hx((wasm.encode(m_), repr(script_))), [])]
-    return m, script, {'nontrivial_fn': nt, 'ninst': 2, 'classes': cls}
+    meta = {'nontrivial_fn': nt, 'ninst': 2, 'classes': cls}
+    if len(m.datas) >= 2 and ch.below(3) == 0:
+        # the initial memory contents are the same when the data segments travel in a side file (-d gnu-ld: one blob that
+        # holds active and passive segments back to back, addressed by running offsets)
+        meta['w2c2_options'] = ('-d', 'gnu-ld')
+        cls['external_data_segments'] = 1
+    return m, script, meta
 
 
 def plan(tier, seed):
